@@ -3,7 +3,11 @@
    No refutation stands against the current code: every *_before_<commit>_refuted statement is about code that has since been
    repaired (45ef7df masks of parafac / tucker / svd_interface, c906acd active_set fallback, ba7a532 the plain mask multipliers
    cp_to_tensor / khatri_rao / cp_lstsq_grad, whose statement for the code as it is now is C18_mask_multiplier_after_cast_any_mask).  Programs extracted from the Python source: C18_prog2_precision_preserved
-   (precision class) and C18_all_exact2_sound (exactly the data's dtype: complex stays complex). *)
+   (precision class) and C18_all_exact2_sound (exactly the data's dtype: complex stays complex).  Call sequences (round 7, Model/DtypeHist.v):
+   C18_history_independent - a call of a program that reads no persistent variable before overwriting it returns, after ANY history of calls,
+   what it returns in a fresh process; vacuously every program without persistent variables (all skeletons, all extracted programs:
+   C18_stateless_history_independent); refuted for a dtype-oblivious cache (C18_dtype_oblivious_cache_refuted - a model variant, NOT the code:
+   that the code keeps no such state is checked per run by harness/props/C18_hist.py). *)
 From Coq Require Import List Bool Arith String.
 From TLV Require Import Model.Dtype Model.DtypeHist Proofs.DtypeProofs Proofs.DtypeHistProofs.
 Import ListNotations.
